@@ -125,6 +125,7 @@ type sgen struct {
 	// BQL parser): kind, graph names, data triples
 	intent string
 	lastXcc string
+	lastXc  string
 }
 
 func hxList(xs []string) string {
@@ -297,23 +298,30 @@ func (s *sgen) where() (string, map[string]byte) {
 	vm := map[string]string{}
 	level := r.intn(2)
 	ids := s.q.g.okIDs()
+	var exps []string
 	for i := 0; i < n; i++ {
 		c := "?s ?p ?o"
+		e := encClause(&semantic.GraphClause{SBinding: "?s", PBinding: "?p", OBinding: "?o"})
 		if len(ids) > 0 {
 			c = s.q.clauseFrom(s.q.g.uni[ids[r.intn(len(ids))]], vm, level)
+			e = s.q.lastExp
 		}
 		if i > 0 && r.chance(1, 6) {
 			c = "optional { " + c + " }"
+			e = "1" + e[1:]
 		}
 		cls = append(cls, c)
+		exps = append(exps, e)
 	}
 	kinds := map[string]byte{}
 	// A pattern that binds nothing has one solution, the empty assignment, which a table cannot hold
 	// (known finding D35, exercised by its own witness): the generated patterns bind something.
 	if len(ids) > 0 && len(bindingsIn(strings.NewReplacer(`"p"`, "", `"q"`, "").Replace(cls[0]))) == 0 {
 		cls[0] = "?s0 ?p0 ?o0"
+		exps[0] = encClause(&semantic.GraphClause{SBinding: "?s0", PBinding: "?p0", OBinding: "?o0"})
 		kinds["?s0"], kinds["?p0"], kinds["?o0"] = 'n', 'p', 'o'
 	}
+	s.lastXc = strings.Join(exps, ";")
 	if len(ids) == 0 {
 		kinds["?s"], kinds["?p"], kinds["?o"] = 'n', 'p', 'o'
 	}
@@ -380,14 +388,14 @@ func (s *sgen) statement() string {
 		w, bs := s.where()
 		og, ig := s.someExisting(2), s.someExisting(2)
 		tpl := s.template(bs, true)
-		s.intent = " xty=5 xog=" + hxList(og) + " xg=" + hxList(ig) + " xcc=" + s.lastXcc
+		s.intent = " xty=5 xog=" + hxList(og) + " xg=" + hxList(ig) + " xcc=" + s.lastXcc + " xc=" + s.lastXc
 		return fmt.Sprintf("construct { %s } into %s from %s where { %s };", tpl, strings.Join(og, ", "),
 			strings.Join(ig, ", "), w)
 	default:
 		w, bs := s.where()
 		og, ig := s.someExisting(2), s.someExisting(2)
 		tpl := s.template(bs, false)
-		s.intent = " xty=6 xog=" + hxList(og) + " xg=" + hxList(ig) + " xcc=" + s.lastXcc
+		s.intent = " xty=6 xog=" + hxList(og) + " xg=" + hxList(ig) + " xcc=" + s.lastXcc + " xc=" + s.lastXc
 		return fmt.Sprintf("deconstruct { %s } in %s from %s where { %s };", tpl, strings.Join(og, ", "),
 			strings.Join(ig, ", "), w)
 	}
